@@ -48,6 +48,7 @@ func (ix *idxEngine) intFacts(p *prover, v ssa.Value, t string, at ssa.Instructi
 		if p.isLoopPhi(x) {
 			out = append(out, p.headerBoundInvariant(x, t)...)
 			out = append(out, p.entryLowerBoundInvariant(x, t)...)
+			out = append(out, p.entryUpperBoundInvariant(x, t)...)
 			out = append(out, p.relationalInvariants(x, t)...)
 			out = append(out, p.rangeCounterFacts(x, t, at)...)
 		}
@@ -392,6 +393,56 @@ func (p *prover) entryLowerBoundInvariant(x *ssa.Phi, t string) []constraint {
 	}
 	inv := func(v lin) constraint {
 		return leq(linConst(c0), v, "loop invariant "+x.Comment+" >= its initial value (inductive)")
+	}
+	for k, pred := range hdr.Preds {
+		if !hdr.Dominates(pred) {
+			continue
+		}
+		last := pred.Instrs[len(pred.Instrs)-1]
+		if ok, _ := p.prove(inv(p.linOf(x.Edges[k])), last, []constraint{inv(linTerm(t))}, 1); !ok {
+			return nil
+		}
+	}
+	out := []constraint{inv(linTerm(t))}
+	p.relCache[key] = out
+	return out
+}
+
+// entryUpperBoundInvariant: the dual for count-down loops (for i := len(s)-1; i >= 0; i--): a loop variable
+// that starts at a value E computed before the loop and is only ever replaced by values proved <= E stays <= E.
+func (p *prover) entryUpperBoundInvariant(x *ssa.Phi, t string) []constraint {
+	key := "eub:" + t
+	if c, ok := p.relCache[key]; ok {
+		return c
+	}
+	p.relCache[key] = nil
+	hdr := x.Block()
+	var e0 ssa.Value
+	for k, pred := range hdr.Preds {
+		if hdr.Dominates(pred) {
+			continue
+		}
+		e := x.Edges[k]
+		switch y := e.(type) {
+		case *ssa.Const, *ssa.Parameter:
+		case ssa.Instruction:
+			if hdr.Dominates(y.Block()) {
+				return nil
+			}
+		default:
+			return nil
+		}
+		if e0 != nil && e0 != e {
+			return nil
+		}
+		e0 = e
+	}
+	if e0 == nil || !isIntType(e0.Type()) {
+		return nil
+	}
+	N := p.linOf(e0)
+	inv := func(v lin) constraint {
+		return leq(v, N, "loop invariant "+x.Comment+" <= its initial value (inductive)")
 	}
 	for k, pred := range hdr.Preds {
 		if !hdr.Dominates(pred) {
